@@ -1,7 +1,8 @@
 (* Evaluation entry points used by the correspondence check of C18 (harness/c18.py).
    Results are lists of small integer codes.  No proofs.                                               *)
 From Coq Require Import List ZArith Bool String.
-From PV Require Import Base.Exn Model.WrapperSem Spec.WrapperSpec Model.WrapperStack Gen.Wrappers.
+From PV Require Import Base.Exn Model.WrapperSem Spec.WrapperSpec Model.WrapperStack Gen.Wrappers Model.WrapperKw.
+From PV Require Gen.Pedantic.
 Import ListNotations.
 Open Scope nat_scope.
 Open Scope list_scope.
@@ -74,15 +75,12 @@ Definition veq (a b : val) : bool :=
 
 (* ---- levels -------------------------------------------------------------------------------------------- *)
 Record lspec := { l_name : dname; l_rv : val; l_rules : list (string * string);
-                  l_kwstrip : option nat;       (* require_kwargs: None = no test (dunder / *args), Some n = n leading positionals allowed *)
+                  l_shape : kw_shape;           (* require_kwargs: what DecoratedFunction sees of the callable this level decorates *)
                   l_dir : bool }.               (* overrides: the name is in dir(base_class) *)
 
 Definition mk_cx (l : lspec) (other : cdesc jst2) (id : nat) : ctx jst2 :=
   Build_ctx (fun _ => other) (fun _ => l_rv l) (l_rules l) veq (fun a b => negb (veq a b))
-            (fun a _ => match l_kwstrip l with
-                        | None => None
-                        | Some n => if Nat.ltb n (List.length a) then Some PCallWithArgsC else None
-                        end)
+            (kw_test_of Gen.Pedantic.pedantic_cfg (l_shape l))      (* the regenerated keyword-only test *)
             raise_warning_prog id.
 
 (* head = outermost; the identity of a level is its height above the function, so it survives further decoration *)
@@ -270,10 +268,15 @@ Definition eval_case (ls : list lspec) (f : fspec) (other : fspec) (flt : factio
   model ++ [-5] ++ spec.
 
 (* ---- classes decorated through for_all_methods ----------------------------------------------------------- *)
-(* [does the access reach the function: 0/1] ++ res(3) ++ [-1] ++ journal ++ [-5] ++ the same for the undecorated class *)
+(* [does the access reach the function: 0/1] ++ res(3) ++ [-1] ++ journal ++ [-5] ++ the same for the undecorated class
+   ++ [-5] ++ the same for the decorator applied to the function with the arguments routed as the undecorated class
+   routes them (what the decorated class would do if for_all_methods kept the member kind) *)
 Definition eval_class (n : dname) (f : fspec) (m : member) (acc : access) (self cls0 sub : val) (a : args) (k : kwargs) : list Z :=
   let fn := desc2 CFunc f [] in
-  let l := {| l_name := n; l_rv := VNone; l_rules := []; l_kwstrip := None; l_dir := true |} in
+  let l := {| l_name := n; l_rv := VNone; l_rules := [];
+              l_shape := {| ks_name := "f"; ks_first_self := false; ks_star_args := true; ks_staticmethod := false;
+                            ks_setter := false; ks_rk_text := false; ks_n_at := 0 |};
+              l_dir := true |} in
   let s0 := Build_st [] (ws0 FaDefault) in
   let show (r : res * st jst2) := enc_res (fst r) ++ [-1] ++ flat_map enc_jrec (cs (snd r)) in
   (match deco_args forall_cfg m acc self cls0 sub a with
@@ -282,6 +285,10 @@ Definition eval_class (n : dname) (f : fspec) (m : member) (acc : access) (self 
    end) ++ [-5] ++
   (match orig_args m acc self cls0 sub a with
    | Some o => [1] ++ show (use_callee fn o k s0)
+   | None => [0]
+   end) ++ [-5] ++
+  (match orig_args m acc self cls0 sub a with
+   | Some o => [1] ++ show (use_wrapped (deco_of n) (with_callee (mk_cx l fn 0) fn) o k s0)
    | None => [0]
    end).
 
